@@ -198,6 +198,71 @@ func suiteProxy(r *rng, n int) {
 		}
 	}
 	proxyTimeoutHistory()
+	proxyHfpConditionalHistory()
+}
+
+// directed history on a hit-for-pass key: the first answer is uncacheable, later ones would be cacheable; a client
+// with a matching validator (or a Range) gets its 304 (206) — and the next client, without such headers, must get
+// the full 200 response, not a replay of that answer
+func proxyHfpConditionalHistory() {
+	var mu sync.Mutex
+	n := 0
+	origin := httptest.NewServer(http.HandlerFunc(func(w http.ResponseWriter, req *http.Request) {
+		mu.Lock()
+		n++
+		first := n == 1
+		mu.Unlock()
+		h := w.Header()
+		h.Set("Etag", originETag)
+		h.Set("Content-Type", "image/png")
+		if first {
+			h.Set("Cache-Control", "no-store")
+		} else {
+			h.Set("Cache-Control", "max-age=60")
+		}
+		if req.Header.Get("If-None-Match") == originETag {
+			w.WriteHeader(304)
+			return
+		}
+		if req.Header.Get("Range") == "bytes=0-4" {
+			h.Set("Content-Range", fmt.Sprintf("bytes 0-4/%d", len(originBody)))
+			w.WriteHeader(206)
+			io.WriteString(w, originBody[:5])
+			return
+		}
+		w.WriteHeader(200)
+		io.WriteString(w, originBody)
+	}))
+	defer origin.Close()
+	var out []string
+	for _, hdr := range []http.Header{{"If-None-Match": []string{originETag}}, {"Range": []string{"bytes=0-4"}}} {
+		mu.Lock()
+		n = 0
+		mu.Unlock()
+		cache.ResetDispatchers(nil)
+		cache.ResetDispatchers([]config.CacheConfig{{Name: "c1", Size: 100, HitForPass: "300s"}})
+		upstream.Reset([]config.UpstreamConfig{{Name: "u1", Servers: []config.UpstreamServerConfig{{Addr: origin.URL}}}})
+		location.Reset([]config.LocationConfig{{Name: "l1", Upstream: "u1"}})
+		s := server.NewServer(server.ServerOption{Addr: ":0", Locations: []string{"l1"}, Cache: "c1", CompressMinLength: 1 << 20})
+		e := elton.New()
+		e.Use(middleware.NewDefaultError())
+		e.Use(middleware.NewDefaultFresh())
+		e.Use(server.NewResponder())
+		e.Use(server.NewCache(s))
+		e.Use(server.NewProxy(s))
+		e.ALL("/*", func(c *elton.Context) error { return nil })
+		do := func(h http.Header) *httptest.ResponseRecorder {
+			w := httptest.NewRecorder()
+			e.ServeHTTP(w, buildRequest("GET", "p.test", "/hfp", h, nil))
+			return w
+		}
+		do(http.Header{})       // 1: uncacheable -> the key becomes hit-for-pass
+		w2 := do(hdr)           // 2: conditional / range client
+		w3 := do(http.Header{}) // 3: plain client
+		out = append(out, itoa(int64(w2.Code)), itoa(int64(w3.Code)), b2s(w3.Body.String() == originBody), hx(w3.Header().Get("X-Status")))
+	}
+	emit(append([]string{"proxy", "hfpseq"}, out...)...)
+	stat("hfp-conditional-histories")
 }
 
 // directed history: an upstream that does not answer.  The location's proxy timeout (300 ms) must end the fetch
